@@ -43,6 +43,22 @@ def run(v, prefixes=("C08",), pid="C08"):
                                          "properties": "CoverLemma, CanonIdempotent, CompactKeepsCover, SameCoverOps, CoarsenGrows, DropShrinks"})
     if sres.violated or "violated" in sres.out:
         v.drift.append({"what": "A5Session design-level property violated in the model", "detail": sres.violated or "temporal property"})
+    if not quick:
+        # design level only: ALL antichains of a complete scaled-down hierarchy (2 faces x 2 segments x 4, resolutions
+        # 0..2, every aperture change; 84,101 antichains + their widened variants) - the code has 12 / 5 built in, so
+        # these inputs cannot be replayed, but the transcribed algorithm is the same text with NF / NS as parameters
+        dm = core.workdir(pid + "_mini")
+        mini = dict(params.collect())
+        mini.update(NF=2, NS=2, FirstQuintant=[0, 0], WindStep=[1, 1], Orientation=[["uv", "vu"], ["uv", "vu"]])
+        core.stage_specs(dm, {"A5Params.tla": params.module_text(mini)})
+        open(dm + "/MC_Compact_run.tla", "w").write("---- MODULE MC_Compact_run ----\nEXTENDS MC_Compact\nRefinableDef == {<<0,0>>, <<0,1>>, <<1,0>>, <<1,1>>}\nDeepDef == {}\n====\n")
+        open(dm + "/MC_mini.cfg", "w").write("SPECIFICATION Spec\nCONSTANTS SortMode = \"hier\"\n SegFaces = {0, 1}\n Refinable <- RefinableDef\n Deep <- DeepDef\n BlockFaces = {}\n"
+                                             + "".join("INVARIANT %s\n" % i for i in cp.INVS if i != "AlgSorted") + "CHECK_DEADLOCK FALSE\n")
+        mres = core.run_tlc(dm, "MC_Compact_run", cfg="MC_mini.cfg", timeout=3000)
+        core.require_clean(mres, "MC_Compact mini", allow_violation=True)
+        v.add_tlc("MC_Compact_mini(all antichains of the 2x2x4 hierarchy)", mres, {"NF": 2, "NS": 2, "resolutions": "0..2", "exhaustive": True})
+        if mres.violated:
+            v.drift.append({"what": "MC_Compact invariant violated on the scaled-down hierarchy", "invariants": mres.violated})
     # negative control of the model: plain numeric order must fail AlgIsCanon in TLC (defect fixed by be0dab5)
     neg = cp.run_universe(d, "U1", mode="numeric", timeout=600, dump=False)
     v.add_tlc("MC_Compact_U1_numeric(negative control)", neg, {"SortMode": "numeric", "expected": "AlgIsCanon violated", "violated": neg.violated})
